@@ -341,6 +341,53 @@ theorem record_backoff_steps (c : Cfg) (hv : c.Valid) (t : Table) (now : Int) (h
         · rw [if_neg hlt]
           exact ⟨by omega, trivial, by omega, by omega, by omega, fun hh => absurd hh hq⟩
 
+/-- **A recorded failure serves the cohort.** Right after `RecordQuestion`
+(at the record instant itself, and at every instant before the returned
+`retryAfter`) a `Lookup` of the same question returns exactly the recorded
+state. So the followers of a single-flight leader whose resolution ended in a
+shareable SERVFAIL find an active failure when they wake up and are answered
+from it — they do not start their own upstream resolution inside the backoff
+that has just begun. -/
+theorem recorded_failure_serves_followers (H : Hash) (c : Cfg) (hv : c.Valid) (t : Table) (now : Int) (k : QKey)
+    (p w : Nat) :
+    now < (recordQuestion H c t now k p w).2.retryAfter ∧
+    ∀ now', now' < (recordQuestion H c t now k p w).2.retryAfter →
+      lookup H (recordQuestion H c t now k p w).1 now' k = some (recordQuestion H c t now k p w).2 := by
+  obtain ⟨_, hb1, _, _, henv, _⟩ := backoff_envelope c hv
+  have hpos : 0 < c.initial := by have := hv.1; unfold second at this; omega
+  unfold recordQuestion
+  simp only
+  have hget := record_get_self c t now (H.q (normalizeQ k)) (questionCandidate (normalizeQ k) p w)
+  have hkey : (record c t now (H.q (normalizeQ k)) (questionCandidate (normalizeQ k) p w)).2.kind = .question ∧
+      (record c t now (H.q (normalizeQ k)) (questionCandidate (normalizeQ k) p w)).2.q = normalizeQ k ∧
+      now < (record c t now (H.q (normalizeQ k)) (questionCandidate (normalizeQ k) p w)).2.retryAfter := by
+    rcases record_cases c t now (H.q (normalizeQ k)) (questionCandidate (normalizeQ k) p w)
+      with ⟨_, hr⟩ | ⟨cur, _, hs, hact, hr⟩ | ⟨cur, _, hs, _, hr⟩
+    · rw [hr]; exact ⟨rfl, rfl, by simp only; omega⟩
+    · rw [hr]
+      unfold sameKey questionCandidate at hs
+      simp only [Bool.and_eq_true, beq_iff_eq] at hs
+      obtain ⟨hk, hm⟩ := hs
+      rw [hk] at hm
+      exact ⟨hk, by simpa using hm, hact⟩
+    · simp only at hr
+      rw [hr]
+      unfold sameKey questionCandidate at hs
+      simp only [Bool.and_eq_true, beq_iff_eq] at hs
+      obtain ⟨hk, hm⟩ := hs
+      rw [hk] at hm
+      refine ⟨hk, by simpa using hm, ?_⟩
+      simp only
+      have : ∀ s, 0 < backoff c s := fun s => by have := (henv s).1; omega
+      split
+      · have := this 1; omega
+      · split
+        · have := this (cur.streak + 1); omega
+        · have := this cur.streak; omega
+  refine ⟨hkey.2.2, fun now' hact => ?_⟩
+  unfold lookup loadQuestion
+  simp only [hget, hkey.1, hkey.2.1, and_self, if_true, hact]
+
 /-! ## a useful answer resets the backoff -/
 
 /-- **Success resets.** After `ResetMatching` for a (well-formed) question,
@@ -830,6 +877,21 @@ theorem store_route_resets (H : Hash) (s : Store) (now : Int) (k : QKey) (hen : 
     rw [this]
     exact resetZone_load_none H s.tab ⟨zone, cls⟩
 
+/-- **A denial or an answer from any server rules a zone failure out.** If
+some server of the set answered NXDOMAIN (with or without an SOA — the rcode
+alone is the denial) or gave the usable NOERROR response, no arrival order
+makes the lookup publish a zone failure. -/
+theorem usable_response_never_publishes_zone_failure (ctx : Ctx) (zoneEmpty nsl lowLevel : Bool)
+    (outs : List Outcome) (h : Outcome.rcode nxdomain ∈ outs ∨ Outcome.good ∈ outs) :
+    resolveRecordsZone ctx zoneEmpty nsl (lookupFold lowLevel outs [] 0 []) = false := by
+  cases hr : resolveRecordsZone ctx zoneEmpty nsl (lookupFold lowLevel outs [] 0 []) with
+  | false => rfl
+  | true =>
+    have hall := (zone_failure_only_if_all_failed ctx zoneEmpty nsl lowLevel outs hr).1
+    rcases h with h | h
+    · exact absurd rfl (hall _ h)
+    · exact (hall _ h).elim
+
 /-! ## the kill switch -/
 
 /-- **rfc9520 off is inert.** With the switch off no Store entry point reads
@@ -1125,6 +1187,13 @@ example : (lookup H1 (Store.setFromResponse H1 ⟨false, cfg0, (recordQuestion H
     wwwExampleCom 1 1 false false .useful).tab 2 (qA wwwExampleCom)) = none := by decide
 example : (lookup H1 (Store.clearZoneFailure H1 ⟨false, cfg0, (recordZone H1 cfg0 [] 0 ⟨exampleCom, 1⟩ 2 0).1⟩ 1 exampleCom).tab 1
     (qA wwwExampleCom)) = none := by decide
+
+-- recorded_failure_serves_followers: the follower waking at the record instant is a hit
+example : (lookup H0 (recordQuestion H0 cfg0 [] 7 (qA wwwMixed) 1 0).1 7 (qA wwwExampleCom)).isSome = true := by decide
+
+-- usable_response_never_publishes_zone_failure: three failing servers and one bare NXDOMAIN
+example : resolveRecordsZone ⟨false, false, false, .none⟩ false false
+    (lookupFold false [.rcode 2, .rcode 5, .rcode nxdomain, .err .other] [] 0 []) = false := by decide
 
 end Examples
 
